@@ -206,6 +206,10 @@ func c20Source(r *rand.Rand) string {
 	if err != nil {
 		return b.String()
 	}
+	if r.IntN(4) == 0 {
+		// not every input has been through gofmt: number literals in the spellings it would rewrite
+		return string(src) + "\nconst (\n\tMask = 0XFF\n\tBig  = 1E9\n\tBin  = 0B101\n\tOct  = 0O17\n\tHexf = 0X1P4\n\tIm   = 1E3i\n)\n"
+	}
 	return string(src)
 }
 
@@ -437,7 +441,10 @@ func fileSansTags(src string) (string, error) {
 		if tok == token.SEMICOLON {
 			continue
 		}
-		if lit != "" {
+		if tok == token.INT || tok == token.FLOAT || tok == token.IMAG {
+			// gofmt writes 0XFF as 0xFF and 1E9 as 1e9: the same literal
+			toks = append(toks, strings.ToLower(lit))
+		} else if lit != "" {
 			toks = append(toks, lit)
 		} else {
 			toks = append(toks, tok.String())
